@@ -4,12 +4,15 @@ package c11
 import (
 	"encoding/json"
 	"fmt"
+	"math"
+	"strings"
 	"testing"
 
 	"github.com/makiuchi-d/gozxing"
 	"github.com/makiuchi-d/gozxing/aztec"
 	azdec "github.com/makiuchi-d/gozxing/aztec/decoder"
 	azdet "github.com/makiuchi-d/gozxing/aztec/detector"
+	cdet "github.com/makiuchi-d/gozxing/common/detector"
 	"pgregory.net/rapid"
 
 	"verif/internal/azref"
@@ -102,31 +105,10 @@ func check(raw json.RawMessage) error {
 		}
 		return nil
 	}
-	// image level: mode message damage within its correction capacity
-	maxMode := 2
-	if !spec.Compact {
-		maxMode = 3
+	img, err := imageOf(c, sym, bm)
+	if err != nil {
+		return err
 	}
-	if len(c.ModeDmg) > maxMode {
-		return fmt.Errorf("hx: mode damage")
-	}
-	seenN := map[int]bool{}
-	for _, d := range c.ModeDmg {
-		if seenN[d[0]] || d[0] < 0 || d[0]*4+3 >= len(sym.ModeModules) || d[1] < 1 || d[1] > 15 {
-			return fmt.Errorf("hx: bad mode damage %v", d)
-		}
-		seenN[d[0]] = true
-		for b := 0; b < 4; b++ {
-			if d[1]&(8>>uint(b)) != 0 {
-				m := sym.ModeModules[d[0]*4+b]
-				bm.Flip(m[0], m[1])
-			}
-		}
-	}
-	img := imgx.Scale(bm, c.Scale)
-	img = imgx.Rotate(img, c.Rot)
-	q := c.Quiet * c.Scale
-	img = imgx.Pad(img, q, q, q, q)
 	bmp, err := gozxing.NewBinaryBitmapFromImage(img)
 	if err != nil {
 		return fmt.Errorf("hx: bitmap: %v", err)
@@ -140,6 +122,79 @@ func check(raw json.RawMessage) error {
 		return fmt.Errorf("AztecReader.Decode = %q (%v) [%s]", clip(res.GetText()), res.GetBarcodeFormat(), desc)
 	}
 	return nil
+}
+
+// imageOf applies mode-message damage (within its correction capacity) and the pose.
+func imageOf(c Case, sym *azref.Symbol, bm *gozxing.BitMatrix) (*gozxing.BitMatrix, error) {
+	spec := sym.Spec
+	maxMode := 2
+	if !spec.Compact {
+		maxMode = 3
+	}
+	if len(c.ModeDmg) > maxMode {
+		return nil, fmt.Errorf("hx: mode damage")
+	}
+	seenN := map[int]bool{}
+	for _, d := range c.ModeDmg {
+		if seenN[d[0]] || d[0] < 0 || d[0]*4+3 >= len(sym.ModeModules) || d[1] < 1 || d[1] > 15 {
+			return nil, fmt.Errorf("hx: bad mode damage %v", d)
+		}
+		seenN[d[0]] = true
+		for b := 0; b < 4; b++ {
+			if d[1]&(8>>uint(b)) != 0 {
+				m := sym.ModeModules[d[0]*4+b]
+				bm.Flip(m[0], m[1])
+			}
+		}
+	}
+	img := imgx.Scale(bm, c.Scale)
+	img = imgx.Rotate(img, c.Rot)
+	q := c.Quiet * c.Scale
+	return imgx.Pad(img, q, q, q, q), nil
+}
+
+// centreDeviation: distance, in modules, between the true centre of the symbol and the centre the
+// library's whole-image white-rectangle detection (the first stage of the Aztec detector) arrives at.
+// Known finding aztec-centre-estimate: the detector misses the bull's eye when this is >= 0.5.
+func centreDeviation(img *gozxing.BitMatrix, scale int) float64 {
+	d, err := cdet.NewWhiteRectangleDetectorFromImage(img)
+	if err != nil {
+		return -1
+	}
+	pts, err := d.Detect()
+	if err != nil {
+		return -1
+	}
+	cx, cy := 0.0, 0.0
+	for _, p := range pts {
+		cx += p.GetX() / 4
+		cy += p.GetY() / 4
+	}
+	tc := float64(img.GetWidth()) / 2
+	return math.Max(math.Abs(cx-tc), math.Abs(cy-tc)) / float64(scale)
+}
+
+// rebuild reconstructs symbol, damaged matrix and image of an image-level case.
+func rebuild(c Case) (*gozxing.BitMatrix, error) {
+	bits, _, err := azref.Encode(c.Tokens)
+	if err != nil {
+		return nil, err
+	}
+	sym, ok := azref.Build(bits, azref.Spec{Compact: c.Compact, Layers: c.Layers}, 3)
+	if !ok {
+		return nil, fmt.Errorf("does not fit")
+	}
+	bm := matrixOf(sym)
+	w := sym.Spec.WordSize()
+	for _, d := range c.Damage {
+		for b := 0; b < w; b++ {
+			if d[1]&(1<<uint(w-1-b)) != 0 {
+				m := sym.WordModules[d[0]][b]
+				bm.Flip(m[0], m[1])
+			}
+		}
+	}
+	return imageOf(c, sym, bm)
 }
 
 func clip(s string) string {
@@ -281,6 +336,21 @@ func drawDamage(t *rapid.T, sym *azref.Symbol, mode string) [][2]int {
 func TestCheck(t *testing.T) {
 	hx.Main(t, "C11", func(c *hx.Ctx) {
 		c.Register("aztec", check)
+		c.RegisterMatcher("aztec-centre-estimate", func(raw json.RawMessage, err error) bool {
+			var cs Case
+			if json.Unmarshal(raw, &cs) != nil || cs.Level != "image" || cs.Layers == 0 {
+				return false
+			}
+			if !strings.Contains(err.Error(), "AztecReader.Decode failed") || !strings.Contains(err.Error(), "NotFoundException") {
+				return false
+			}
+			img, e := rebuild(cs)
+			if e != nil {
+				return false
+			}
+			dev := centreDeviation(img, cs.Scale)
+			return dev < 0 || dev >= 0.5
+		})
 	}, func(c *hx.Ctx) {
 		// (1) high-level decode of token walks
 		c.Rapid("high_level_walks", c.N(2500, 25000), func(t *rapid.T) {
@@ -370,6 +440,16 @@ func TestCheck(t *testing.T) {
 				}
 			}
 			cl, _ := classOf(spec, used, fmt.Sprintf("rot=%d;scale=%d;damage=%s", cs.Rot*90, cs.Scale, dm))
+			if img, e := rebuild(cs); e == nil {
+				if dev := centreDeviation(img, cs.Scale); dev < 0 || dev >= 0.5 {
+					// known finding aztec-centre-estimate: steer around it (counted), keep 1 in 10
+					if rapid.IntRange(0, 9).Draw(t, "keep_known") != 0 {
+						c.Exclude("aztec-centre-estimate: whole-image centre estimate >= 0.5 module off")
+						t.Skip("excluded by construction")
+					}
+					cl += ";centre_estimate_off"
+				}
+			}
 			raw, _ := json.Marshal(cs)
 			c.Note("image_level", cl, true, hx.Hash(raw), func() any { return sample(cs) })
 			if err := c.Eval("aztec", cs); err != nil {
